@@ -280,6 +280,22 @@ def D3():
     return not ok, f'nxt*.connect from h1 on a 2-cycle -> {got}'
 
 
+def D23():
+    lg = LanguageGraph.from_mal_spec(os.path.join(HERE, 'lang_d23.mal'))
+    lcf = LanguageClassesFactory(lg)
+    res = {}
+    for order in ('declared', 'reversed'):
+        m = Model('m', lcf)
+        m.add_asset(lcf.ns.Box(name='b'))
+        g = AttackGraph(lg, m)
+        if order == 'reversed':
+            g.nodes.reverse()
+        apriori.calculate_viability_and_necessity(g)
+        res[order] = g.get_node_by_full_name('b:x').is_necessary
+    return res['declared'] != res['reversed'] or res['declared'] is not True, \
+        f"necessity of the 'and' step x (parents: disabled defense d2, TTC-gated p1): {res} (expected True in any order)"
+
+
 if __name__ == '__main__':
     ids = sys.argv[1:] or sorted((k for k in globals() if k[0] == 'D' and k[1:].isdigit()),
                                  key=lambda s: int(s[1:]))
